@@ -235,11 +235,20 @@ package hub
 // later would create a connection this Shutdown never closes
 //@   atcall Shutdown [C10] D5-flag-first: h.isShutdown
 //@   atcall CloseConnection [C10] D5-flag-first: h.isShutdown
+// C11-F4: every connection registered when Shutdown starts is closed by it (the range over the registry is complete:
+// the iteration model hands out every key exactly once, and the snapshot holds the connection of every key handed out)
+//@   ensures [C11] F4-all-closed: forall k: string :: old(k in h.connections) ==> old(h.connections[k]).$closeCalls > old(h.connections[k].$closeCalls)
 //@   modifies *
 //@ loop (h *Hub).Shutdown #0
 //@   invariant h.connections != nil && (forall k: string :: k in h.connections ==> h.connections[k] != nil) && (forall i: int :: 0 <= i && i < len(connections) ==> connections[i] != nil)
+//@   invariant forall k: string :: visited(k) ==> (exists i: int :: 0 <= i && i < len(connections) && connections[i] == h.connections[k])
+//@   invariant forall k: string :: (k in h.connections) == old(k in h.connections) && h.connections[k] == old(h.connections[k])
+//@   invariant forall r: ref :: r.$closeCalls == old(r.$closeCalls)
 //@ loop (h *Hub).Shutdown #1
 //@   invariant forall i: int :: 0 <= i && i < len(connections) ==> connections[i] != nil
+//@   invariant forall r: ref :: r.$closeCalls >= old(r.$closeCalls)
+//@   invariant forall r: ref :: forall i: int :: 0 <= i && i <= rangeindex && ref(connections[i]) == r ==> r.$closeCalls > old(r.$closeCalls)
+//@   invariant forall k: string :: old(k in h.connections) ==> (exists i: int :: 0 <= i && i < len(connections) && connections[i] == old(h.connections[k]))
 //@ func (h *Hub).coordinateConnectionInitations(ski, entry) [C10,C08]
 //@   requires @HUBINV(h) && entry != nil
 //@   ensures @HUBINV(h)
